@@ -8,7 +8,6 @@ package PKGNAME
 
 import (
 	"encoding/json"
-	"errors"
 	"hash/crc32"
 	"os"
 	"runtime"
@@ -47,7 +46,7 @@ type vfPcScript struct {
 	Steps   []vfPcStep `json:"steps"`
 }
 
-var errVfInjected = errors.New("verif: injected failure of the downstream writer")
+var errVfInjected error = vfInjErr{"verif: injected failure of the downstream writer"}
 
 // vfPcTwccID returns the transport-cc extension id negotiated for stream s (0 = none).
 func (sc *vfPcScript) vfPcTwccID(s uint32) int {
